@@ -48,6 +48,9 @@ CLAIMS = {
  "C17": dict(ref="5/C17",
    text="Real Go types implementing every combination of MarshalJSONTo/MarshalJSON/AppendText/MarshalText (and the unmarshal trio) on value and pointer receivers are marshaled/unmarshaled by the real library at 11-15 positions (top level, pointer, struct field, element, map key/value, behind any, nil pointer, non-addressable) while the user methods and caller-supplied functions follow scripts chosen by the solver (which tokens/values they write or read, what they return, Reset inside the call): the first method called is the first applicable in the documented order, ErrUnsupported without coder use falls through, pointer receivers are honoured for addressable and non-addressable values and never called on nil, anything but exactly one value (or ErrUnsupported after use) is an error, nil error implies valid output (C02 clause), options seen inside are the caller's, Reset inside panics; function lists in order with type match and skip rules.",
    note="One known finding (KF-C17-close-parent-container: the one-value police can be escaped by closing the caller's container) is attributed by region; everything else is a violation. Legacy v1 options and retained coders are outside. reflect is the engine's go/types-backed environment model."),
+ "C15": dict(ref="5/C15",
+   text="A family of 12 real Go struct types (name collisions across embedding depths, ties broken by an explicit name, unbroken ties, embedded pointers and non-structs, unexported fields, '-' tags, renames, omitzero/omitempty/string, case:ignore/case:strict, an embedded fallback, 70- and 132-field types, nested structs) is marshaled and unmarshaled by the real library: the members emitted and their order equal a hand-written table derived from the documentation; for objects whose member NAME bytes are symbolic, exactly the field designated by the documented matching rule (exact match preferred, case-insensitive folding ignoring '_' and '-' only where requested, ambiguity reported, unknown names ignored / rejected / captured by the fallback) receives the value under 4 option sets; two members resolving to one field are rejected (bit-set boundaries 64/128 included); omitzero/omitempty conditions; parseFieldOptions on symbolic tag strings against a reference tag grammar.",
+   note="One known finding (KF-C15-diamond-embedding, same behaviour as classic encoding/json) is attributed by region. Types are a fixed family (not generated), names ASCII, values one digit. reflect is the engine's go/types-backed environment model; harnesses replay natively verbatim."),
  "C05": dict(ref="5/C05",
    text="A decoder fed through a reader whose every Read size is chosen by the solver (tiny buffer capacities 2..8 and the real 64-byte buffer, empty reads, EOF delivered with data) is compared call by call with a decoder over the whole slice, for all sequences of ReadToken/ReadValue/SkipValue/PeekKind within the bound and symbolic input bytes (full range and templates): same results, error class/offset/pointer, InputOffset, StackDepth, StackIndex, StackPointer; returned values equal their input span; reader bytes = first InputOffset bytes ++ UnreadBuffer. A second family injects one transient read error at a solver-chosen Read: the pending ReadToken/ReadValue returns it, state is unchanged, the retry continues identically.",
    note="Bounded: inputs of 2-3 fully symbolic bytes and templates of up to 18 bytes with symbolic holes, 2-3 calls, the first 2-9 Read sizes symbolic then 1-byte reads. UnmarshalRead/UnmarshalDecode for typed targets are reflection-driven and outside this claim. Trusted: gosym semantics (replay-validated), z3."),
